@@ -2,6 +2,8 @@
      dec <w> <len,..> <id,..>        per (len, id): "<hdr_decode>|<read_header or =>"
      frg <w> <len,..> <id,..> <pats>  read_header_chunks under every cut pattern
      rfg|pip <hex | -> <pats>        the same for an arbitrary stream (rfg adds @consumed)
+     bat enc <par> v:t:l:i;..        encode_batch: one enc-style token per header of the batch
+     bat dec <par> hex;hex;..        decode_batch: one raw-style token per buffer of the batch
      raw <hex | ->                   the same for an arbitrary buffer
      enc <ver> <typ> <len,..> <id,..> per (len, id): "<hdr_encode>|=|<write_header or =>"
    decoded headers print as ver.typ.len.id, rejection/refusal as E, bytes as hex *)
@@ -98,6 +100,28 @@ let () =
          (match rs with
           | r :: rest when List.for_all (fun x -> x = r) rest -> Buffer.add_string out r
           | _ -> Buffer.add_string out (String.concat "/" rs))
+       | ["bat"; "enc"; _; items] ->
+         (* a batch of headers "ver:typ:len:id;..." : encode_batch, one enc-style token per item *)
+         let hs = List.map (fun it -> match List.map int_of_string (String.split_on_char ':' it) with
+             | [v; t; l; i] -> { h_ver = n_of_int v; h_typ = n_of_int t; h_len = n_of_int l; h_id = n_of_int i }
+             | _ -> failwith "bad item") (String.split_on_char ';' items) in
+         let first = ref true in
+         List.iter (fun (e, w) ->
+             if not !first then Buffer.add_char out ' ';
+             first := false;
+             let m = match e with None -> "E" | Some b -> hex_of b in
+             let wh = hex_of w in
+             Buffer.add_string out m; Buffer.add_string out "|=|";
+             Buffer.add_string out (if wh = m then "=" else wh)) (encode_batch hs)
+       | ["bat"; "dec"; _; items] ->
+         let bufs = List.map (fun h -> if h = "-" then [] else bytes_of_hex h) (String.split_on_char ';' items) in
+         let first = ref true in
+         List.iter (fun (u, r) ->
+             if not !first then Buffer.add_char out ' ';
+             first := false;
+             let a = res_string u and b = res_string r in
+             Buffer.add_string out a; Buffer.add_char out '|';
+             if a = b then Buffer.add_char out '=' else Buffer.add_string out b) (decode_batch bufs)
        | ["raw"; h] ->
          decode_both out (if h = "-" then [] else bytes_of_hex h)
        | ["enc"; ver; typ; lens; ids] ->
